@@ -1205,9 +1205,13 @@ func (bc *BlockChain) insertChain2(chain types.Blocks, try int) (int, []interfac
 			var winner []*types.Block
 
 			parent := bc.GetBlock(block.ParentHash(), block.NumberU64()-1)
-			for !bc.HasState(parent.Root()) {
+			for parent != nil && !bc.HasState(parent.Root()) {
 				winner = append(winner, parent)
 				parent = bc.GetBlock(parent.ParentHash(), parent.NumberU64()-1)
+			}
+			if parent == nil {
+				// an ancestor of the side chain is gone (removed by a rewind): nothing to build the state on
+				return i, events, coalescedLogs, consensus.ErrUnknownAncestor
 			}
 			for j := 0; j < len(winner)/2; j++ {
 				winner[j], winner[len(winner)-1-j] = winner[len(winner)-1-j], winner[j]
